@@ -190,7 +190,14 @@ func (g grpcWebClientProtocol) encodeEnd(op *operation, end *responseEnd, writer
 	grpcWriteEndToTrailers(end, trailers)
 	buffer := op.bufferPool.Get()
 	defer op.bufferPool.Put(buffer)
-	_ = trailers.Write(buffer)
+	// The trailers travel in the body as an HTTP/1 header block whose field names
+	// are in lower case (clients such as grpc-web's look them up that way).
+	lowerCased := make(http.Header, len(trailers))
+	for key, values := range trailers {
+		key = strings.ToLower(key)
+		lowerCased[key] = append(lowerCased[key], values...)
+	}
+	_ = lowerCased.Write(buffer)
 	// TODO: Send envelope compressed if possible.
 	length := int64(len(buffer.Bytes()))
 	if length > math.MaxUint32 {
